@@ -830,7 +830,10 @@ impl Version {
                 FIND_BEST_COMPACTION_MAX_BYTES_EXCEEDED.click();
                 return (candidate, best_score);
             }
-            if inputs.len() > self.options.max_compaction_files
+            // A level-0 compaction that is needed to lift the write stall is not refused for
+            // exceeding max_compaction_files:  nothing else can relieve level 0.
+            let lifts_stall = lower_level == 0 && self.should_stall_ingest();
+            if (inputs.len() > self.options.max_compaction_files && !lifts_stall)
                 || inputs.len() > self.options.max_open_files
             {
                 FIND_BEST_COMPACTION_MAX_FILES_EXCEEDED.click();
